@@ -327,6 +327,29 @@ def check_case(ctx, case, rng):
                 if d != dm:
                     ctx.violation("write-inverse", "constructed-dump-differs-from-model-dump",
                                   case_detail(case, cfg=cfgd, value=model.clean(v), got=d, want=dm))
+        # the byte order is looked up when a value is read or written: switched after the definitions were loaded
+        # (and a reader was generated), the units and the side their fields are taken from follow the new one
+        other = ">" if cfgd["endian"] == "<" else "<"
+        cs.endian = other
+        cd = dict(cfgd, endian=other, switched_from=cfgd["endian"])
+        cfg2 = engine.mcfg(case, other, cfgd["align"], cfgd["ptr"])
+        ctx.cell(f"endian-switched-after-load:{'compiled' if T.__compiled__ else 'interpreted'}")
+        for inp in inputs[:1] + inputs[-2:]:
+            r, exp = engine.judge_parse(ctx, case, cd, cfg2, T, inp, label="after-endian-switch", sig_prefix="endian-switch:")
+            if r[0] == "ok" and exp[0] == "ok" and not model.has_nan(exp[1]) and not (gen.has_leb(top) or gen.has_float(top)):
+                try:
+                    d = r[1].dumps()
+                except Exception as e:  # noqa: BLE001
+                    ctx.violation("dump-raises", f"endian-switch:dumps-raises:{type(e).__name__}",
+                                  case_detail(case, cfg=cd, data=inp, error=lib.exc_sig(e)))
+                    continue
+                dm, mask, k1 = model.dump_full(top, exp[1], cfg2)
+                if d != dm:
+                    diffs = engine.bits_differ(d, dm, bytes([0xFF]) * min(len(d), len(dm)))
+                    if not (len(d) == len(dm) and engine.k1_explains(diffs, d, k1)):
+                        ctx.violation("write-inverse", "endian-switch:dump-differs-from-model-dump",
+                                      case_detail(case, cfg=cd, data=inp, got=d, want=dm))
+                ctx.event("endian_switched_parses")
 
 
 def char_units(ctx, rng, n):
@@ -532,6 +555,32 @@ def union_bits(ctx, rng):
                 # (dumping writes the first member only -- K1 -- so the dump is a's bits alone or the whole unit)
                 ok = int(u.a) == nv and int(u.b) == wb2 and u._buf == new_unit.to_bytes(size, bo) and \
                     u.dumps() in (image.to_bytes(size, bo), new_unit.to_bytes(size, bo))
+                # writing only writes: the same bytes onto a stream that holds other bytes already, inside a structure,
+                # and to an output that cannot be read (a file opened "wb")
+                import io as _io
+
+                d_ = u.dumps()
+                pre = _io.BytesIO(b"\xff" * (size + 2))
+                n_ = u.write(pre)
+
+                class _Sink:
+                    def __init__(self):
+                        self.b = _io.BytesIO()
+
+                    def write(self, x):
+                        return self.b.write(x)
+
+                    def tell(self):
+                        return self.b.tell()
+
+                sink = _Sink()
+                u.write(sink)
+                if pre.getvalue()[:size] != d_ or n_ != size or sink.b.getvalue() != d_:
+                    ctx.violation("union-bits", "union-write-through-a-bit-field-member-depends-on-the-output-stream",
+                                  {"text": text, "endian": endian, "dump": d_.hex(), "over_ff_bytes": pre.getvalue().hex(),
+                                   "to_write_only_sink": sink.b.getvalue().hex(), "workload": "union-bits"})
+                    continue
+                ctx.event("union_bit_field_writes_to_sinks")
                 try:
                     u.a = 1 << b1
                     ok = False
@@ -619,6 +668,10 @@ def replay(ctx, detail):
             return
         inp = engine.unhex(detail["data"])
         cfg = engine.mcfg(case, cfgd["endian"], cfgd["align"], cfgd["ptr"])
+        if cfgd.get("switched_from"):
+            cs, err = engine.load_cfg(ctx, case, dict(cfgd, endian=cfgd["switched_from"]))
+            cs.endian = cfgd["endian"]
+            print("(byte order switched after the load)")
         r, exp = engine.judge_parse(ctx, case, cfgd, cfg, cs.T, inp)
         print("input:", inp.hex())
         print("library:", r[0], r[1])
